@@ -66,8 +66,20 @@ class Meaning:
         for cls in (Coefficient, Constant, Label):
             cs = sorted({t.count() for t in terms if isinstance(t, cls)})
             self.rank[cls] = {c: k for k, c in enumerate(cs)}
-        meshes = list(form.domain_numbering().keys())
-        self.mesh_rank = {m.ufl_id(): k for k, m in enumerate(meshes)}
+        # domain numbering of the MODEL (not read from the implementation): integration domains first,
+        # then the other meshes met in the integrands, each group in the order of the domain sort key
+        def skey(m):
+            return (m.geometric_dimension, m.topological_dimension, m.ufl_id())
+        integ = sorted({itg.ufl_domain() for itg in form.integrals()}, key=skey)
+        others = set()
+        for t in terms:
+            try:
+                for d in t.ufl_domains():
+                    others.update(getattr(d, "meshes", (d,)))
+            except Exception:      # noqa: BLE001
+                pass
+        others = sorted((m for m in others if m not in integ), key=skey)
+        self.mesh_rank = {m.ufl_id(): k for k, m in enumerate(list(integ) + others)}
 
     def fs(self, V):
         m = V.ufl_domain()
@@ -186,6 +198,52 @@ class Ctx:
         return ufl.FunctionSpace(mesh or self.m, elements.LagrangeElement(self.cell, deg, tuple(sh)))
 
 
+def md_mutants(md, path=""):
+    """All single-point mutations of a metadata tree: (name, mutated copy)."""
+    out = []
+    if isinstance(md, dict):
+        for key in sorted(md):
+            for nm, v in md_mutants(md[key], path + "/" + key):
+                m2 = dict(md)
+                m2[key] = v
+                out.append((nm, m2))
+            m2 = dict(md)
+            del m2[key]
+            out.append((path + "/" + key + ":dropped", m2))
+    elif isinstance(md, list | tuple):
+        mk = type(md)
+        for n, x in enumerate(md):
+            for nm, v in md_mutants(x, path + f"[{n}]"):
+                out.append((nm, mk(list(md[:n]) + [v] + list(md[n + 1:]))))
+        for a in range(len(md)):
+            for b in range(a + 1, len(md)):
+                if not md_equal(md[a], md[b]):
+                    l2 = list(md)
+                    l2[a], l2[b] = l2[b], l2[a]
+                    out.append((path + f":swap{a}{b}", mk(l2)))
+        if len(md) > 1:
+            out.append((path + ":shorter", mk(md[:-1])))
+        out.append((path + ":list<->tuple", (tuple if isinstance(md, list) else list)(md)))
+    elif isinstance(md, bool):
+        out.append((path + ":flipped", not md))
+        out.append((path + ":bool->str", str(md)))
+    elif isinstance(md, int):
+        out.append((path + ":+1", md + 1))
+        out.append((path + ":int->str", str(md)))
+    elif isinstance(md, float):
+        out.append((path + ":*2", md * 2))
+        out.append((path + ":float->str", str(md)))
+    elif isinstance(md, str):
+        out.append((path + ":other", md + "x"))
+    elif md is None:
+        out.append((path + ":None->str", "None"))
+    return out
+
+
+def pick_k(k, seq):
+    return seq[k % len(seq)]
+
+
 def family(k, rng):
     """Return [(name, form, tag)]: the base form first, then its mutants / equal rebuilds.
     tag: 'same' (must have the base signature), 'diff' (must differ), or a known-collision kind."""
@@ -195,18 +253,24 @@ def family(k, rng):
     A, B = ufl.Coefficient(Vt), ufl.Coefficient(Vt)
     w = ufl.Coefficient(Vv)
     kc = ufl.Constant(c.m)
+    mB = ufl.Mesh(elements.LagrangeElement(c.cell, 1, (2,)))        # a second mesh, not an integration domain
+    mC = ufl.Mesh(elements.LagrangeElement(c.cell, 1, (2,)))
+    q = ufl.Coefficient(c.V(mesh=mB))
     u, v = ufl.TrialFunction(V), ufl.TestFunction(V)
     i, j = ufl.indices(2)
     lit = rng.choice([2, 3, 7, 0.5, 2.5])
     fx = rng.randrange(2)
-    md0 = rng.choice([{"quadrature_degree": 2}, {"quadrature_degree": 3, "rule": "default"},
-                      {"quadrature_degree": 2, "opts": {"a": 1, "b": [1, 2]}}])
+    md0 = pick_k(k, [{"quadrature_degree": 2}, {"quadrature_degree": 3, "rule": "default"},
+                      {"quadrature_degree": 2, "opts": {"a": 1, "b": [1, 2]}},
+                      {"quadrature_degree": (1, 4), "rule": "default"},
+                      {"quadrature_rule": "custom", "weights": [0.5, 0.25, 0.125],
+                       "sub": {"degrees": (2, 3), "scheme": "default", "flag": True}}])
     sid0 = rng.choice([1, 2, (1, 2)])
     shape = k % 4
 
     def build(lit=lit, fx=fx, swap_idx=False, div_swap=False, conj=False, fdeg=None, argno=False,
               coef_other=False, sid=sid0, itype="dx", mesh=None, md=md0, pow_swap=False, cond_swap=False,
-              fresh=False, dot_swap=False, extra_lit=None):
+              fresh=False, dot_swap=False, extra_lit=None, fmesh=None, qmesh=mB, xmesh=None):
         ff, gg = (f, g)
         if fresh:
             # same construction from fresh index objects / an equal Coefficient object
@@ -218,6 +282,9 @@ def family(k, rng):
             ff = ufl.Coefficient(c.V(deg=fdeg), count=f.count())
         if coef_other:
             ff = h
+        if fmesh is not None:
+            ff = ufl.Coefficient(c.V(mesh=fmesh), count=f.count())
+        qq = q if qmesh is mB else ufl.Coefficient(c.V(mesh=qmesh), count=q.count())
         t1 = A[ii, jj] * (B[ii, jj] if swap_idx else B[jj, ii])
         t2 = (gg / (ff + lit)) if not div_swap else ((ff + lit) / gg)
         t3 = w[fx] * (ufl.conj(ff) if conj else ff)
@@ -228,6 +295,7 @@ def family(k, rng):
         e = parts[shape] + parts[(shape + 1) % 6] * kc
         if shape % 2 == 0:
             e = e + parts[(shape + 3) % 6]
+        e = e + qq * ufl.SpatialCoordinate(xmesh or c.m)[0]
         if extra_lit is not None:
             e = e * extra_lit
         vv = ufl.TestFunction(V) if not argno else ufl.TrialFunction(V)
@@ -254,21 +322,40 @@ def family(k, rng):
     out.append(("element-degree", build(fdeg=2), "diff"))
     out.append(("argument-number", build(argno=True), "diff"))
     out.append(("other-coefficient", build(coef_other=True), "diff"))
+    out.append(("coefficient-moved-to-second-mesh", build(fmesh=mB), "diff"))
+    out.append(("second-mesh-coefficient-moved-to-integration-mesh", build(qmesh=c.m), "diff"))
+    out.append(("second-mesh-replaced-by-third", build(qmesh=mC), "same"))
+    out.append(("coordinate-of-second-mesh", build(xmesh=mB), "diff"))
+    out.append(("coordinate-of-third-mesh", build(xmesh=mC), "diff"))
+    # index slots: every placement of free / fixed indices in A[.,.] * B[.,.] and in component tensors
+    ii, jj = ufl.indices(2)
+    slots = [("i0", (ii, 0)), ("0i", (0, ii)), ("i1", (ii, 1)), ("1i", (1, ii)), ("ii", (ii, ii)),
+             ("00", (0, 0)), ("01", (0, 1)), ("10", (1, 0)), ("ij", (ii, jj)), ("ji", (jj, ii)), ("j0", (jj, 0))]
+    vt = ufl.TestFunction(V)
+    for nm, pq in slots:
+        out.append(("slots-" + nm, A[pq] * B[pq] * vt * ufl.dx(domain=c.m), "slots"))
+    out.append(("slots-ij-ji", A[ii, jj] * B[jj, ii] * vt * ufl.dx(domain=c.m), "slots"))
+    out.append(("slice-col0", ufl.inner(A[:, 0], w) * vt * ufl.dx(domain=c.m), "slots"))
+    out.append(("slice-row0", ufl.inner(A[0, :], w) * vt * ufl.dx(domain=c.m), "slots"))
+    out.append(("ct-col0", ufl.as_vector(A[ii, 0], ii)[1] * vt * ufl.dx(domain=c.m), "slots"))
+    out.append(("ct-row0", ufl.as_vector(A[0, ii], ii)[1] * vt * ufl.dx(domain=c.m), "slots"))
     out.append(("subdomain-id", build(sid=3 if sid0 != 3 else 4), "diff"))
     out.append(("subdomain-tuple", build(sid=(1, 3)), "diff"))
     out.append(("integral-type", build(itype="ds"), "diff"))
     out.append(("domain-coordinate-degree", build(mesh=c.m2), "diff"))
-    md1 = dict(md0)
-    md1["quadrature_degree"] = md0["quadrature_degree"] + 1
-    out.append(("metadata-value", build(md=md1), "diff"))
+    for nm, mdm in md_mutants(md0):
+        out.append(("metadata:" + nm, build(md=mdm), "md-generic"))
     md2 = dict(md0)
     md2["extra"] = "x"
     out.append(("metadata-key", build(md=md2), "diff"))
     out.append(("metadata-none", build(md=None), "diff"))
     # untyped metadata: the known collisions
     md3 = dict(md0)
-    md3["quadrature_degree"] = str(md0["quadrature_degree"])
-    out.append(("metadata-int-vs-str", build(md=md3), "md"))
+    md3["extra"] = 3
+    md4 = dict(md0)
+    md4["extra"] = "3"
+    out.append(("metadata-int", build(md=md3), "md"))
+    out.append(("metadata-int-vs-str", build(md=md4), "md"))
     out.append(("metadata-list", build(md={"p": [1, 2], "q": None}), "mdl0"))
     out.append(("metadata-tuple", build(md={"p": (1, 2), "q": "None"}), "mdl1"))
     # arrays
@@ -292,7 +379,7 @@ def family(k, rng):
 # ------------------------------------------------------------------------------------------------
 def main(run):
     rng = random.Random(run.seed * 104729 + 11)
-    nfam = 10 if run.tier == "quick" else 60
+    nfam = 6 if run.tier == "quick" else 40
     known = {k["id"]: k for k in vlib.load_known_findings("C11")}
     viol, known_inst = [], []
     sig_of, mean_of = {}, {}
@@ -316,13 +403,29 @@ def main(run):
             ren = form._compute_renumbering()
             integrands = [itg.integrand() for itg in form.integrals()]
             th = compute_terminal_hashdata(integrands, ren)
+            mi_fwd, mi_bwd = {}, {}
             for t, real in th.items():
                 if isinstance(t, MultiIndex):
-                    continue     # numbering order of the real traversal may differ; covered at form level
+                    # the numbering order of the real traversal may differ from the model's, but inside one form
+                    # model and real multi-index data must be in bijection
+                    mi_fwd.setdefault(M.thd(t), set()).add(real)
+                    mi_bwd.setdefault(real, set()).add(M.thd(t))
+                    continue
                 mk = M.thd(t)
                 rk = real_data_key(real)
                 term_pairs.setdefault(mk, set()).add(rk)
                 rev_pairs.setdefault(rk, set()).add(mk)
+            for real, ms in mi_bwd.items():
+                if len(ms) > 1:
+                    viol.append(("multiindex-collision", {
+                        "failing_input": {"form": repr(form)[:4000], "str": str(form)[:600]},
+                        "observed": f"compute_multiindex_hashdata gives {real!r} for the different multi-indices "
+                                    f"{sorted(ms)} (model data: fixed >= 0, k-th free index -(k+1)) of this form",
+                        "expected": "different hash data for multi-indices that differ after canonical renumbering"}))
+            for mk, rs in mi_fwd.items():
+                if len(rs) > 1:
+                    viol.append(("multiindex-data", {"failing_input": {"form": repr(form)[:4000]},
+                                                     "observed": f"multi-index {mk} hashed as {sorted(rs)}"}))
         base = rows[0]
         for (n1, f1, t1, m1, s1, M1), (n2, f2, t2, m2, s2, M2) in itertools.combinations(rows, 2):
             run.count_case((k, n1, n2), nontrivial=True)
@@ -331,7 +434,10 @@ def main(run):
                                                              "metadata": repr(f1.integrals()[0].metadata())[:300]},
                    "form_2": {"mutation": n2, "str": str(f2)[:700], "signature": s2,
                               "metadata": repr(f2.integrals()[0].metadata())[:300]},
-                   "reproduce": "bin/check C11 (family(k, rng) in py/props/C11.py rebuilds both forms)"}
+                   "failing_input": {"form_1": repr(f1)[:6000], "form_2": repr(f2)[:6000]},
+                   "observed": {"signature_1": s1, "signature_2": s2},
+                   "reproduce": "bin/check C11 (family(k, rng) in py/props/C11.py rebuilds both forms; "
+                                "failing_input holds their eval()-able repr)"}
             md1, md2 = f1.integrals()[0].metadata(), f2.integrals()[0].metadata()
             really_differ = not md_equal(md1, md2) or strip_md(m1) != strip_md(m2)
             if same_sig and really_differ:
@@ -415,6 +521,8 @@ def main(run):
             coq_fail.append((os.path.basename(res.path), res.failing_lemma(), (res.err or "")[-300:]))
 
     # -- verdict
+    prio = {"collision": 0, "incomplete": 1, "multiindex-collision": 2}
+    viol.sort(key=lambda v: prio.get(v[0], 5))
     real_v = [v for v in viol if v[0] != "model-disagreement"]
     for kind, rec in real_v[:6]:
         rec = dict(rec)
